@@ -127,6 +127,7 @@ package xmpp
 // the request is a get/set IQ and the handler wrote no reply; it carries the
 // request id and goes to the request's sender.
 //@ func handleInputStream
+//@   noswallow[C08]
 //@   ghost handlerCalls int = 0
 //@   ghost autoReply bool = false
 //@   ghost firstErr error
@@ -174,6 +175,8 @@ package xmpp
 //@   callsite handleInputStream#1
 //@     after: lastErr = ret0
 //@   ensures[C08] lastErr != nil && lastErr != io.EOF ==> err != nil
+// C10: Serve leaves both directions marked closed, whatever made it return
+//@   ensures[C10] outClosed(s.state) && s.state & InputStreamClosed == InputStreamClosed
 
 // ---------------------------------------------------------------------------
 // C12: resource binding carries exactly the requested and assigned addresses
@@ -812,9 +815,8 @@ package xmpp
 //@     preserves s.state
 //@   ensures[C10] s.state == old(s.state) | InputStreamClosed
 
-// Serve leaves both directions marked closed, whatever made it return.
-//@ func (*Session).Serve
-//@   ensures[C10] outClosed(s.state) && s.state & InputStreamClosed == InputStreamClosed
+// (Serve leaves both directions marked closed, whatever made it return: the
+// clause is with the other clauses of Serve above.)
 
 // ---------------------------------------------------------------------------
 // C05: what the stanza encoder forwards to the wire encoder.
